@@ -734,6 +734,23 @@ class Engine:
         segs_ng = [s for s in segs_ng if s != '']
         last = segs_ng[-1]
         cat = self.prog.cat
+        # trimmed paths: MIR prints unambiguous items by their last segment only ("_5 = ProcessedCommit;"),
+        # so the destination type decides first
+        if dest_ty and dest_ty[0] not in '&*([{':
+            dn = simple_type_name(dest_ty)
+            if dn and dn not in ('Option', 'Result') and re.match(r'^[A-Z]\w*$', dn):
+                try:
+                    dvs = cat.variants(dn, strip_generics(dest_ty), crate)
+                except MirError:
+                    dvs = None
+                if dvs and last in dvs and (len(segs_ng) == 1 or segs_ng[-2] == dn):
+                    qual = self.qualify([x for x in strip_generics(dest_ty).split('::') if x], crate)
+                    if names:
+                        order = cat.variant_fields(dn, last, strip_generics(dest_ty), crate)
+                        if order and set(order) == set(names):
+                            vals = [vals[names.index(n)] for n in order]
+                            names = order
+                    return Agg('enum', qual, qual + '::' + last, vals, names)
         # enum variant? (Type::Variant) -- check the catalogue for the second-to-last segment
         if len(segs_ng) >= 2:
             en = segs_ng[-2]
@@ -1183,6 +1200,12 @@ class Engine:
             self.unknown_callees[short] = self.unknown_callees.get(short, 0) + 1
         if self.havoc_mut and not is_pure:
             for a in call.args:
+                if isinstance(a, Opaque) and a.ty.startswith('&mut') and not a.over:
+                    # opaque &mut T passed by copy/reborrow: the pointee may change
+                    cur = st.heap.get(a.uid)
+                    base = ('*' + a.uid)
+                    st.heap[a.uid] = Opaque(st.fresh(base + "'"), deref_type(a.ty))
+                    continue
                 if isinstance(a, Ref) and a.mut:
                     try:
                         cur = self.read(st, a.loc, a.path)
